@@ -19,7 +19,8 @@ ASSUMPTIONS = ["a node instance is identified by (graph instance, node index); u
                "g++-12 -O1 build of the working tree with harness-side shims"]
 FLOORS = {"faults_fired": {"quick": 1500, "thorough": 30000}, "start_faults": {"quick": 200, "thorough": 4000},
           "stop_faults": {"quick": 200, "thorough": 4000}, "eval_faults": {"quick": 400, "thorough": 8000},
-          "nested_instance_faults": {"quick": 100, "thorough": 2000}, "instances_checked": {"quick": 10000, "thorough": 200000}}
+          "nested_instance_faults": {"quick": 100, "thorough": 2000}, "instances_checked": {"quick": 10000, "thorough": 200000},
+          "dynamic_child_faults": {"quick": 100, "thorough": 2000}}
 BATCH = 60
 
 
@@ -44,6 +45,52 @@ def fault_space(rng, base, tier):
     return plans
 
 
+def add_dynamic_children(rng, base):
+    """Keyed map / switch / reduce whose child graphs are alive (and come and go) while faults fire."""
+    from .prog import S
+    from .c10 import gen_key_history
+    uid = 1 + max([s.uid() or 0 for g in base.graphs.values() for s in g] + [0])
+    main = base.graphs["main"]
+    extra = []
+    kind = rng.choice(["map", "switch", "reduce", "map+switch"])
+    if "map" in kind or kind == "reduce":
+        base.cscripts[uid] = gen_key_history(rng, base.start, base.end, rng.choice([2, 3, 5]))
+        main.append(S("dyn_d", "csrc", shape="tsd", uid=uid))
+        uid += 1
+    if "map" in kind:
+        base.graphs["fn0"] = [S("e", "pass", "p0", uid=uid), S("a", rng.choice(["acc", "count", "pass"]), "e", uid=uid + 1),
+                              S("dl", "delay", "a", uid=uid + 2, k=rng.choice([1, 2])), S("", "RET", "a")]
+        extra += [uid, uid + 1, uid + 2]
+        uid += 3
+        main.append(S("dyn_m", "map", "dyn_d", fn="fn1:0"))
+        main.append(S("", "cmirror", "dyn_m", uid=uid))
+        uid += 1
+    if kind == "reduce":
+        base.graphs["fn1"] = [S("x", "sum2", "p0", "p1"), S("y", "pass", "x", uid=uid), S("", "RET", "y")]
+        extra += [uid]
+        base.meta["reduce_uids"] = [uid]
+        uid += 1
+        main.append(S("dyn_r", "reduce", "dyn_d", fn="fn2:1"))
+        main.append(S("", "rec", "dyn_r", uid=uid))
+        uid += 1
+    if "switch" in kind:
+        base.scripts[uid] = sorted({(t, rng.choice([1, 2])) for t in rng.sample(range(base.start, base.end), min(6, base.end - base.start))})
+        base.scripts[uid] = [(t, v) for t, v in dict(base.scripts[uid]).items()]
+        base.scripts[uid].sort()
+        base.scripts[uid + 1] = [(t, rng.randint(0, 50)) for t in range(base.start, base.end, 2)]
+        main.append(S("dyn_k", "src", uid=uid, mode=1))
+        main.append(S("dyn_a", "src", uid=uid + 1, mode=0))
+        uid += 2
+        base.graphs["fn2"] = [S("e", "acc", "p0", uid=uid), S("dl", "delay", "e", uid=uid + 1, k=1), S("", "RET", "e")]
+        base.graphs["fn3"] = [S("e", "count", "p0", uid=uid + 2), S("", "RET", "e")]
+        extra += [uid, uid + 1, uid + 2]
+        uid += 3
+        main.append(S("dyn_s", "switch", "dyn_k", "dyn_a", cases="1:fn1:2,2:fn1:3"))
+        main.append(S("", "rec", "dyn_s", uid=uid))
+        uid += 1
+    return extra
+
+
 def generate(rng, tier, seed):
     nprog = 20 if tier == "quick" else 300
     cases = []
@@ -51,7 +98,11 @@ def generate(rng, tier, seed):
         base = gen_case(rng, f"c14_{seed}_{p}", n_nodes=rng.choice([2, 3, 5, 8]), max_depth=2,
                         nested_only="nested" if rng.random() < 0.6 else None)
         base.end = min(base.end, base.start + 20)
+        dyn_uids = add_dynamic_children(rng, base) if p % 2 == 1 else []
         plans = fault_space(rng, base, tier)
+        for u in dyn_uids:
+            plans += [[(u, "start", rng.choice([1, 2]))], [(u, "stop", 1)], [(u, "eval", 1)], [(u, "eval", rng.choice([2, 3, 5]))]]
+        base.meta["dynamic"] = bool(dyn_uids)
         k = 0
         for plan in plans:
             for cleanup in (1, 0):
@@ -163,7 +214,11 @@ def check(case, tr):
     if fired:
         first = fired[0]
         if run.error is None:
-            V.append(Violation(f"fault {first} was thrown but run() returned normally"))
+            if first[1] == "stop" and first[0] in case.meta.get("reduce_uids", []):
+                V.append(Violation(f"stop() of a node inside a retired reduce combiner threw {first}; the exception was swallowed and run() "
+                                   f"returned normally", "reduce-retired-combiner-stop-failure-swallowed"))
+            else:
+                V.append(Violation(f"fault {first} was thrown but run() returned normally"))
         else:
             want = f"verif-fault_uid={first[0]}_phase={first[1]}_occ={first[2]}"
             if want not in run.error:
@@ -175,6 +230,8 @@ def check(case, tr):
     res.counters.update({"faults_fired": len(fired), "instances_checked": n_inst,
                          "start_faults": sum(1 for f in fired if f[1] == "start"), "stop_faults": sum(1 for f in fired if f[1] == "stop"),
                          "eval_faults": sum(1 for f in fired if f[1] == "eval"),
+                         "dynamic_child_faults": 1 if fired and case.meta.get("dynamic") and any(
+                             st["uid"] == fired[0][0] and parents.get(k[0], (-1, -1))[0] >= 0 for k, st in inst.items()) else 0,
                          "nested_instance_faults": 1 if fired and any(st["uid"] == fired[0][0] and parents.get(k[0], (-1, -1))[0] >= 0 for k, st in inst.items()) else 0})
     res.nontrivial = bool(fired)
     return res
